@@ -691,6 +691,35 @@ def extract_sharedstate(rep: Report) -> str:
                     for t, v in tv:
                         if isinstance(t, pyast.Name) and is_mutable_value(v):
                             shared.append((mod, f"{node.name}.{t.id}", "class-level " + type(v).__name__))
+        # class-level mutable objects that an instance reaches as self.X: shared between all instances unless __init__ gives every instance its own
+        class_mut: dict[str, set[str]] = {}
+        rebound: set[str] = set()
+        owner: dict[int, str] = {}
+        for c in pyast.walk(tree):
+            if not isinstance(c, pyast.ClassDef):
+                continue
+            for b in c.body:
+                tv = [(t, b.value) for t in b.targets] if isinstance(b, pyast.Assign) else [(b.target, b.value)] if isinstance(b, pyast.AnnAssign) and b.value is not None else []
+                for t, v in tv:
+                    if isinstance(t, pyast.Name) and is_mutable_value(v):
+                        class_mut.setdefault(t.id, set()).add(c.name)
+                if isinstance(b, (pyast.FunctionDef, pyast.AsyncFunctionDef)):
+                    owner[id(b)] = c.name
+                    if b.name == "__init__":
+                        for n in pyast.walk(b):
+                            ts = n.targets if isinstance(n, pyast.Assign) else [n.target] if isinstance(n, pyast.AnnAssign) and n.value is not None else []
+                            for t in ts:
+                                if isinstance(t, pyast.Attribute) and isinstance(t.value, pyast.Name) and t.value.id == "self":
+                                    rebound.add(t.attr)
+
+        def shared_self_attr(e):
+            """e is self.X(...) / self.X[...] with X a class-level mutable object that no __init__ rebinds: the name X, else None"""
+            while isinstance(e, pyast.Subscript):
+                e = e.value
+            if isinstance(e, pyast.Attribute) and isinstance(e.value, pyast.Name) and e.value.id == "self" and e.attr in class_mut and e.attr not in rebound:
+                return e.attr
+            return None
+
         # functions
         for node in pyast.walk(tree):
             if not isinstance(node, (pyast.FunctionDef, pyast.AsyncFunctionDef)):
@@ -728,6 +757,9 @@ def extract_sharedstate(rep: Report) -> str:
                             r = root_name(fn.value)
                             if r in module_names:
                                 d["writes"].append((f"{r}.{fn.attr}()", n.lineno))
+                            x = shared_self_attr(fn.value)
+                            if x is not None:
+                                d["writes"].append((f"self.{x}.{fn.attr}() on the class-level object {'/'.join(sorted(class_mut[x]))}.{x}", n.lineno))
                             # a mutating method on an attribute chain (node.statements.append, style.X.update ...): mutates an argument
                             if isinstance(fn.value, (pyast.Attribute, pyast.Subscript)) and r not in ("self",) and mod.endswith("formatter"):
                                 d["argmut"].append((pyast.unparse(fn)[:60], n.lineno))
@@ -743,6 +775,9 @@ def extract_sharedstate(rep: Report) -> str:
                         r = root_name(t)
                         if r in module_names:
                             d["writes"].append((pyast.unparse(t)[:60], n.lineno))
+                        x = shared_self_attr(t) if isinstance(t, pyast.Subscript) or isinstance(n, pyast.AugAssign) else None
+                        if x is not None:
+                            d["writes"].append((f"{pyast.unparse(t)[:40]} stored into the class-level object {'/'.join(sorted(class_mut[x]))}.{x}", n.lineno))
                         if isinstance(t, pyast.Attribute) and r != "self" and mod.endswith("formatter"):
                             d["argmut"].append((pyast.unparse(t)[:60] + " =", n.lineno))
     # reachability from the API entry points by called names
